@@ -771,6 +771,35 @@ func c15Input(dir string, scn *c15Scn, st c15Site) any {
 
 // ---------------------------------------------------------------------------- emit / replay
 
+// c15OpenIDs reads the ids of the OPEN known findings of C15 from ./known_findings.json (the
+// check runs the harness in the framework root; the file is only read).  The driver attributes a
+// failure to a known finding only if it is open, so that a regression of a FIXED finding is
+// reported as a violation together with its failing input.
+func c15OpenIDs() []string {
+	ids := []string{}
+	b, err := os.ReadFile("known_findings.json")
+	if err != nil {
+		return ids
+	}
+	var d struct {
+		Findings []struct {
+			Property string `json:"property"`
+			ID       string `json:"id"`
+			Status   string `json:"status"`
+		} `json:"findings"`
+	}
+	if json.Unmarshal(b, &d) != nil {
+		return ids
+	}
+	for _, f := range d.Findings {
+		if f.Property == "C15" && f.Status == "open" {
+			ids = append(ids, f.ID)
+		}
+	}
+	sort.Strings(ids)
+	return ids
+}
+
 func c15Emit(c *Ctx, dir string, scn *c15Scn, sites []c15Site) {
 	all, byMode, reps := c15Measure(c, dir, scn, sites)
 	slim := *scn
@@ -788,7 +817,7 @@ func c15Emit(c *Ctx, dir string, scn *c15Scn, sites []c15Site) {
 		c.Count(fmt.Sprintf("site.%s.distinct=%d", st.Kind, len(impl)))
 		c.Emit("c15.repeat", map[string]any{
 			"site": st.Name, "kind": st.Kind, "sd": st, "scn": slim,
-			"in": c15Input(dir, scn, st), "impl": vals, "by_mode": byMode[st.Name], "reps": reps,
+			"in": c15Input(dir, scn, st), "impl": vals, "by_mode": byMode[st.Name], "reps": reps, "open": c15OpenIDs(),
 		})
 	}
 }
@@ -821,7 +850,7 @@ func replayC15(c *Ctx, m map[string]any) map[string]any {
 		vals[i] = json.RawMessage(s)
 	}
 	return map[string]any{"site": st.Name, "kind": st.Kind, "sd": st, "scn": scn,
-		"in": c15Input(dir, &scn, st), "impl": vals, "by_mode": byMode[st.Name], "reps": reps}
+		"in": c15Input(dir, &scn, st), "impl": vals, "by_mode": byMode[st.Name], "reps": reps, "open": c15OpenIDs()}
 }
 
 // ---------------------------------------------------------------------------- generator
@@ -1096,7 +1125,7 @@ func c15GenScenario(c *Ctx, idx int) *c15Scn {
 }
 
 func genC15(c *Ctx) {
-	n := c.N(30, 300)
+	n := c.N(30, 120)
 	for i := 0; i < n; i++ {
 		scn := c15GenScenario(c, i)
 		dir, err := os.MkdirTemp(c.Tmp, "c15-")
